@@ -389,6 +389,18 @@ ConfScalars(h, o) ==
 
 ConfAnchor(h, o) == h.anchor = o.anchor /\ Cardinality(DOMAIN h.sigpool) = o.sigpool
 
+\* sched mode (specification -> implementation): the line carries what TLC, running
+\* Babble.tla on its own, predicted for the acting node after this step
+ConfSchedPred(x, o, dvn) ==
+    ("pred" \notin DOMAIN x) \/
+    LET p == x.pred IN
+    /\ p.sent
+    /\ AsSeq(p.new) = AsSeq(x.new)
+    /\ \A k \in 1..Len(o.known) :
+          o.known[k].c \in 1..Len(p.known) /\ p.known[o.known[k].c] = o.known[k].i
+    /\ p.seq = o.seq /\ p.pool = Len(o.txpool) /\ p.nblk = Len(dvn)
+    /\ p.busy = o.busy /\ p.lcr = o.lcr
+
 ConfPS(h, o) ==
     /\ DOMAIN h.ps = { o.ps[k].r : k \in 1..Len(o.ps) }
     /\ \A k \in 1..Len(o.ps) : o.ps[k].r \in DOMAIN h.ps => h.ps[o.ps[k].r] = AsSeq(o.ps[k].peers)
@@ -635,6 +647,7 @@ SyncOutcome(n, x, o) ==
              \cup Checks("-", "Conf_SyncClass", ("tampered" \in DOMAIN x) \/ ~r.mis)
              \cup Checks("-", "Conf_SelfEvent", r.selfok /\ r.wantsOK)
              \cup Checks("-", "Conf_FameUnambiguous", ~h1.ambig)
+             \cup Checks("-", "Conf_Sched_Pred", ConfSchedPred(x, o, dlv1[n]))
     IN  [ nodes |-> nodes1, dlv |-> dlv1, sto |-> sto1, psto |-> psto1, rrv |-> [ rrv EXCEPT ![n] = rv1 ],
           last |-> [ last EXCEPT ![n] = [ lcr |-> o.lcr, ps |-> PSTable(o.ps), anchor |-> o.anchor, lr |-> o.lastRound ] ],
           cev |-> [ cev EXCEPT ![n] = @ \cup UNION { SeqToSet(o.blocks[k].evs) : k \in 1..Len(o.blocks) } ],
